@@ -288,6 +288,24 @@ func checkC09(P *Program, r *Result, tier string) {
 // be handed (back) to it — frees and parking are guarded by the ownership flags.
 func ownerGuardRules(P *Program, r *Result, rule string) {
 	inBufiox := func(f *ssa.Function) bool { return fnPkgPath(f) != modPath+"/"+relBufiox }
+	// memory handed back to the shared pool is forgotten by the instance (otherwise two instances share it)
+	for _, s := range allFreeSites(P) {
+		fn := s.Fn
+		field, _ := freedField(fn, s.Call.Common().Args[0])
+		if field == "" {
+			r.add(rule, shortName(fn), "free", "the freed value comes from a receiver field", P.pos(instrPos(s.Call)), false, "freed value is not a load of a receiver field")
+			continue
+		}
+		leak, exit := exitsWithout(s.Call, func(in ssa.Instruction) bool {
+			st, ok := in.(*ssa.Store)
+			return ok && recvFieldOf(fn, st.Addr) == field
+		})
+		detail := ""
+		if leak {
+			detail = "a path reaches " + P.pos(instrPos(exit)) + " with field " + field + " still referring to memory that went back to the shared pool"
+		}
+		r.add(rule, shortName(fn), "forget", "field "+field+" no longer refers to the buffer once it is back in the shared pool", P.pos(instrPos(s.Call)), !leak, detail)
+	}
 	ownerFlagRule(P, r, rule)
 	for _, s := range allFreeSites(P) {
 		fn := s.Fn
